@@ -517,11 +517,19 @@ func c02SortConsumersCheck(c *Ctx) {
 // ---- (3) R-GOAGG ----------------------------------------------------------------------------------------
 
 func c02GoAgg(c *Ctx) {
+	sites := goAggRule(c, "R-GOAGG", c02InScope)
+	if sites < 5 {
+		c.Fail("R-GOAGG", "site-count", token.NoPos, "only %d functions call thread.Parallelize (expected ≥ 5)", sites)
+	}
+}
+
+// goAggRule applies R-GOAGG to every function calling thread.Parallelize in the selected packages.
+func goAggRule(c *Ctx, rule string, inScope func(rel string) bool) int {
 	p := c.P
 	sites := 0
 	for _, pk := range p.ModulePkgs() {
 		rel := relPkg(pk.PkgPath)
-		if !c02InScope(rel) {
+		if !inScope(rel) {
 			continue
 		}
 		info := pk.TypesInfo
@@ -551,20 +559,57 @@ func c02GoAgg(c *Ctx) {
 					return true
 				}
 				nJobs++
-				c02CheckJob(c, pk, fr, lit, par)
+				c02CheckJob(c, rule, pk, fr, lit, par)
 				return false
 			})
 			if nJobs == 0 {
-				c.Ob("R-GOAGG", fr.ID()+"/jobs", par.Pos(), true, false, "jobs are not literals of this function (built elsewhere)")
+				c.Ob(rule, fr.ID()+"/jobs", par.Pos(), true, false, "jobs are not literals of this function (built elsewhere)")
 			}
+			// index-addressed job tables cover the whole work list: jobs := make([]…, len(W)) and `for i, x := range W { jobs[i] = … }`
+			ast.Inspect(fr.Decl.Body, func(n ast.Node) bool {
+				rs, ok := n.(*ast.RangeStmt)
+				if !ok || rs.Key == nil {
+					return true
+				}
+				for _, st := range rs.Body.List {
+					as, ok := st.(*ast.AssignStmt)
+					if !ok || len(as.Lhs) != 1 {
+						continue
+					}
+					ix, ok := as.Lhs[0].(*ast.IndexExpr)
+					if !ok || identObj(info, ix.Index) != identObj(info, rs.Key) {
+						continue
+					}
+					if _, isLit := as.Rhs[0].(*ast.FuncLit); !isLit {
+						continue
+					}
+					jobsObj := identObj(info, ix.X)
+					// definition of the jobs table
+					sized := ""
+					ast.Inspect(fr.Decl.Body, func(m ast.Node) bool {
+						a2, ok := m.(*ast.AssignStmt)
+						if !ok || len(a2.Lhs) != 1 || identObj(info, a2.Lhs[0]) != jobsObj || len(a2.Rhs) != 1 {
+							return true
+						}
+						if mk, ok := a2.Rhs[0].(*ast.CallExpr); ok && len(mk.Args) >= 2 {
+							if id, ok := mk.Fun.(*ast.Ident); ok && id.Name == "make" {
+								sized = exprString(mk.Args[1])
+							}
+						}
+						return true
+					})
+					want := "len(" + exprString(rs.X) + ")"
+					c.Ob(rule, fr.ID()+"/jobs-cover-work", rs.Pos(), sized == want, true,
+						"the job table is make(…, %s) and is filled by ranging over %s: every work item gets a job iff the size is %s", sized, exprString(rs.X), want)
+				}
+				return true
+			})
 		}
 	}
-	if sites < 5 {
-		c.Fail("R-GOAGG", "site-count", token.NoPos, "only %d functions call thread.Parallelize (expected ≥ 5)", sites)
-	}
+	return sites
 }
 
-func c02CheckJob(c *Ctx, pk *packages.Package, fr *FuncRef, lit *ast.FuncLit, par *ast.CallExpr) {
+func c02CheckJob(c *Ctx, rule string, pk *packages.Package, fr *FuncRef, lit *ast.FuncLit, par *ast.CallExpr) {
 	p := c.P
 	info := pk.TypesInfo
 	outer := func(obj types.Object) bool {
@@ -627,7 +672,7 @@ func c02CheckJob(c *Ctx, pk *packages.Package, fr *FuncRef, lit *ast.FuncLit, pa
 			inst := fr.ID() + "/job-write/" + root.Name()
 			if indexStore {
 				if _, isMap := info.TypeOf(ast.Unparen(lhs).(*ast.IndexExpr).X).Underlying().(*types.Map); !isMap {
-					c.Ob("R-GOAGG", inst, as.Pos(), true, true, "index-addressed store into shared slice %s (each job owns its slot)", root.Name())
+					c.Ob(rule, inst, as.Pos(), true, true, "index-addressed store into shared slice %s (each job owns its slot)", root.Name())
 					continue
 				}
 			}
@@ -643,7 +688,28 @@ func c02CheckJob(c *Ctx, pk *packages.Package, fr *FuncRef, lit *ast.FuncLit, pa
 				}
 			}
 			if !locked {
-				c.Ob("R-GOAGG", inst, as.Pos(), false, true, "job closure writes shared variable %s without holding a mutex (data race / schedule-dependent result)", root.Name())
+				c.Ob(rule, inst, as.Pos(), false, true, "job closure writes shared variable %s without holding a mutex (data race / schedule-dependent result)", root.Name())
+				continue
+			}
+			// the mutex must be one object shared by all jobs: not declared inside a loop that also creates the job
+			sharedLock := true
+			for _, l := range locks {
+				call := l.(*ast.CallExpr)
+				if sel, ok := call.Fun.(*ast.SelectorExpr); ok {
+					if mo := identObj(info, sel.X); mo != nil {
+						for cur := p.Parent(lit); cur != nil && cur != fr.Decl; cur = p.Parent(cur) {
+							switch cur.(type) {
+							case *ast.ForStmt, *ast.RangeStmt:
+								if mo.Pos() >= cur.Pos() && mo.Pos() < cur.End() {
+									sharedLock = false
+								}
+							}
+						}
+					}
+				}
+			}
+			if !sharedLock {
+				c.Ob(rule, inst, as.Pos(), false, true, "the mutex guarding %s is declared inside the loop that creates the jobs: every job locks its own mutex and the shared write is unprotected", root.Name())
 				continue
 			}
 			// appended under lock: must be sorted after the barrier
@@ -656,18 +722,18 @@ func c02CheckJob(c *Ctx, pk *packages.Package, fr *FuncRef, lit *ast.FuncLit, pa
 				}
 			}
 			if !isAppend {
-				c.Ob("R-GOAGG", inst, as.Pos(), true, true, "store into shared %s under a mutex (map/set insertion)", root.Name())
+				c.Ob(rule, inst, as.Pos(), true, true, "store into shared %s under a mutex (map/set insertion)", root.Name())
 				continue
 			}
 			l := &mapLoop{Pkg: pk, Fn: fr.Decl, Range: &ast.RangeStmt{For: par.Pos(), X: par, Body: &ast.BlockStmt{Lbrace: par.Pos(), Rbrace: par.End()}}}
 			// uses before the barrier (inside job literals, declarations) are not order-revealing
 			ok, why := sortedAfterBarrier(p, l, root, par)
-			c.Ob("R-GOAGG", inst, as.Pos(), ok, true, "appended under a mutex in schedule order; after the Parallelize barrier: %s", why)
+			c.Ob(rule, inst, as.Pos(), ok, true, "appended under a mutex in schedule order; after the Parallelize barrier: %s", why)
 		}
 		return true
 	})
 	if writes == 0 {
-		c.Ob("R-GOAGG", fr.ID()+"/job-no-shared-write", lit.Pos(), true, false, "job closure writes no shared variable directly")
+		c.Ob(rule, fr.ID()+"/job-no-shared-write", lit.Pos(), true, false, "job closure writes no shared variable directly")
 	}
 }
 
